@@ -127,6 +127,11 @@ impl Bracket {
                 }
             }
             regex.write_char(')').unwrap();
+        } else if self.items.iter().all(BracketItem::matches_multi_character) {
+            // Multi-character items never exclude a single character. With
+            // nothing left to exclude, `[^]` would be an invalid regex, so
+            // match any one character instead.
+            regex.write_char('.').unwrap();
         } else {
             regex.write_str("[^").unwrap();
             for item in &self.items {
